@@ -28,20 +28,29 @@ X_VARIANTS = [b"a", b"\x00", b"\xff", b"\xc3\xa9"]   # the last one: a two-byte 
 S_VARIANTS = [b" ", b"\t"]
 FIELD_HDR = [b'Content-Disposition: form-', b'data; name="f\xc3\xa9"']
 FILE_HDR = [b'Content-Disposition: form-data; name="u1"; file', b'name="n\xc3\xa4me.bin"\r\nContent-', b'Type: application/x-t']
+# header block variants used at helper level (hv): odd control characters inside a name, a second header line in another encoding
+FIELD_HDR_V = {1: [b'Content-Disposition: form-', b'data; name="f\x0b\xc3\xa9\x1c"'],
+               2: [b'X-Note: caf\xe9\r\nContent-Disposition: form-', b'data; name="f\xc3\xa9"']}
+FILE_HDR_V = {1: [b'Content-Disposition: form-data; name="u1"; file', b'name="n\x0c\xc3\xa4me.bin"\r\nContent-', b'Type: application/x-t'],
+              2: [b'X-Note: caf\xe9\r\nContent-Disposition: form-data; name="u1"; file', b'name="n\xc3\xa4me.bin"\r\nContent-', b'Type: application/x-t']}
+FIELD_NAME = {0: "f\u00e9", 1: "f\x0b\u00e9\x1c", 2: "f\u00e9"}
+FILE_NAME = {0: "n\u00e4me.bin", 1: "n\x0c\u00e4me.bin", 2: "n\u00e4me.bin"}
 
 
-def conc_symbols(symbols, variant=0, bnd_map=None):
+def conc_symbols(symbols, variant=0, bnd_map=None, hv=0):
     """per-symbol byte strings (header symbols are positional pieces of a real header block)"""
     bm = bnd_map or {"b": b"B", "c": b"q"}
     out = []
     hi = gi = 0
+    fh = FIELD_HDR_V.get(hv, FIELD_HDR)
+    gh = FILE_HDR_V.get(hv, FILE_HDR)
     for s in symbols:
         if s == "h":
-            out.append(FIELD_HDR[hi % 2])
+            out.append(fh[hi % 2])
             hi += 1
             continue
         if s == "g":
-            out.append(FILE_HDR[gi % 3])
+            out.append(gh[gi % 3])
             gi += 1
             continue
         hi = gi = 0
@@ -60,8 +69,8 @@ def conc_symbols(symbols, variant=0, bnd_map=None):
     return out
 
 
-def conc_seq(symbols, variant=0, bnd_map=None):
-    return b"".join(conc_symbols(symbols, variant, bnd_map))
+def conc_seq(symbols, variant=0, bnd_map=None, hv=0):
+    return b"".join(conc_symbols(symbols, variant, bnd_map, hv))
 
 
 def boundary_bytes(bnd=BND, bnd_map=None):
@@ -69,16 +78,16 @@ def boundary_bytes(bnd=BND, bnd_map=None):
     return b"".join(b"-" if s == "d" else bm[s] for s in bnd)
 
 
-def expected_items(form, variant=0, bnd_map=None, charset="utf8"):
+def expected_items(form, variant=0, bnd_map=None, charset="utf8", hv=0):
     """what the helpers must return for this form: (name, text) / (name, filename, content-type, bytes)"""
     from baize.multipart import safe_decode
     out = []
     for p in form:
         data = conc_seq(p["content"], variant, bnd_map)
         if p["kind"] == "field":
-            out.append(("fé", safe_decode(data, charset)))
+            out.append((FIELD_NAME[hv], safe_decode(data, charset)))
         else:
-            out.append(("u1", "näme.bin", "application/x-t", data))
+            out.append(("u1", FILE_NAME[hv], "application/x-t", data))
     return out
 
 
